@@ -13,6 +13,7 @@ import (
 
 	"github.com/openconfig/goyang/pkg/yang"
 	"verif/internal/dump"
+	"verif/internal/faults"
 	"verif/internal/job"
 	"verif/internal/prng"
 	"verif/internal/schema"
@@ -61,7 +62,28 @@ func conflictSet(i int64, seed int64) []file {
 	r := prng.For(seed, "C05", "conflict", i)
 	pick := func(xs ...string) string { return xs[r.Intn(len(xs))] }
 	var fs []file
-	switch i % 6 {
+	switch i % 9 {
+	case 6: // two revisions of a module that both include one submodule (nested include in half of the cases)
+		nested := pick("", "include t;")
+		top := ""
+		if nested != "" {
+			top = "include t;"
+		}
+		fs = append(fs, file{"m1.yang", "module m { namespace \"urn:m\"; prefix m; include s; " + top + " revision 2019-01-01; leaf a { type string; } }"})
+		fs = append(fs, file{"m2.yang", "module m { namespace \"urn:m\"; prefix m; include s; " + top + " revision 2020-01-01; leaf a { type string; } leaf b { type st; } }"})
+		fs = append(fs, file{"s.yang", "submodule s { belongs-to m { prefix m; } " + nested + " typedef st { type int8; } leaf fromsub { type st; } }"})
+		if nested != "" {
+			fs = append(fs, file{"t.yang", "submodule t { belongs-to m { prefix m; } leaf fromnested { type string; } }"})
+		}
+	case 7: // two revisions of a module, each with its own typedefs, groupings, augments and deviations; importers with and without revision-date
+		fs = append(fs, file{"x.yang", "module x { namespace \"urn:x\"; prefix x; container c { leaf d { type string; default q; } } }"})
+		fs = append(fs, file{"m1.yang", "module m { namespace \"urn:m\"; prefix m; import x { prefix x; } revision 2019-01-01; typedef t { type int8; } grouping g { leaf old { type t; } } augment /x:c { leaf " + pick("fromm", "from1") + " { type t; } } }"})
+		fs = append(fs, file{"m2.yang", "module m { namespace \"urn:m\"; prefix m; import x { prefix x; } revision 2020-01-01; typedef t { type string; } grouping g { leaf new { type t; } } augment /x:c { leaf " + pick("fromm", "from2") + " { type t; } } " + pick("", "deviation /x:c/x:d { deviate replace { default r; } }") + " }"})
+		fs = append(fs, file{"u.yang", "module u { namespace \"urn:u\"; prefix u; import m { prefix m; " + pick("", "revision-date 2019-01-01;", "revision-date 2020-01-01;") + " } container k { uses m:g; } leaf l { type m:t; } }"})
+	case 8: // deviations of one node from two modules (commuting and conflicting), and of a node that comes from a grouping used twice
+		fs = append(fs, file{"m.yang", "module m { namespace \"urn:m\"; prefix m; grouping g { leaf-list ll { type string; max-elements 9; } leaf gl { type string; } } container u1 { uses g; } container u2 { uses g; } leaf l { type string; } }"})
+		fs = append(fs, file{"d1.yang", "module d1 { namespace \"urn:d1\"; prefix d1; import m { prefix m; } deviation /m:l { deviate add { " + pick("default a;", "units u1;", "config false;") + " } } deviation /m:u1/m:ll { deviate replace { max-elements 3; } } }"})
+		fs = append(fs, file{"d2.yang", "module d2 { namespace \"urn:d2\"; prefix d2; import m { prefix m; } deviation /m:l { deviate add { " + pick("default b;", "mandatory true;", "config true;") + " } } deviation /m:u2/m:gl { deviate " + pick("not-supported;", "add { default z; }") + " } }"})
 	case 0: // equal identity names in several modules
 		fs = append(fs, file{"a.yang", "module a { namespace \"urn:a\"; prefix a; identity base; identity x { base base; } identity y { base x; } }"})
 		for k, n := range []string{"b", "c", "d"}[:1+r.Intn(3)] {
@@ -90,6 +112,25 @@ func conflictSet(i int64, seed int64) []file {
 		fs = append(fs, file{"m.yang", "module m { namespace \"urn:m\"; prefix m; container c { } augment /m:c { container a1 { } } }"})
 	}
 	return fs
+}
+
+var modHead = regexp.MustCompile(`^\s*module (\S+) \{`)
+
+// twoRevisionsShareSubmodule reports whether the set holds two texts of one module name
+// that both have an include statement (the shape of a recorded finding).
+func twoRevisionsShareSubmodule(fs []file) bool {
+	n := map[string]int{}
+	for _, f := range fs {
+		if m := modHead.FindStringSubmatch(f.Text); m != nil && strings.Contains(f.Text, " include ") {
+			n[m[1]]++
+		}
+	}
+	for _, c := range n {
+		if c >= 2 {
+			return true
+		}
+	}
+	return false
 }
 
 func perms(n int, max int, r interface{ Perm(int) []int }) [][]int {
@@ -143,6 +184,9 @@ func Run(j *job.Job, s *job.Sink) {
 				if c%2 == 1 && r.Intn(2) == 0 {
 					t = strings.Replace(t, "type string;", "type nosuch;", 1+r.Intn(2))
 					t = strings.Replace(t, "uses ", "uses missing; uses ", 1)
+					for q := r.Intn(3); q > 0; q-- { // up to two more faults of other kinds
+						t, _ = faults.Inject(r, t)
+					}
 				}
 				fs = append(fs, file{m.Name + ".yang", t})
 			}
@@ -163,7 +207,7 @@ func Run(j *job.Job, s *job.Sink) {
 				return
 			}
 			reported[class] = true
-			s.Violation(c, j.CaseID(c), "C05.repeat", class, detail, fs, map[string]any{"family": j.Family, "shape": c % 6})
+			s.Violation(c, j.CaseID(c), "C05.repeat", class, detail, fs, map[string]any{"family": j.Family, "two_revisions_include_same_submodule": twoRevisionsShareSubmodule(fs)})
 		}
 		for _, p := range perms(len(fs), maxPerms, r) {
 			for k := 0; k < reps; k++ {
